@@ -10,14 +10,14 @@ Lemma C16_gen_index_variant : bbox_index_variant = 1%N.  Proof. reflexivity. Qed
    (ch), from_blob recovers the entries *)
 Theorem C16_directory_any_encoder :
   forall ch es, Forall entry_ok es -> nondec 0 es -> (N.of_nat (length es) <= 10000000000)%N ->
-    deserialize (serialize_with ch es) = Ok es.
-Proof. exact deserialize_serialize. Qed.
+    deserialize pm_arith_variant (serialize_with ch es) = Ok es.
+Proof. exact (deserialize_serialize pm_arith_variant). Qed.
 Print Assumptions C16_directory_any_encoder.
 
 (* find_tile is the published lookup rule on every directory with increasing ids *)
 Theorem C16_find_tile_is_spec :
-  forall es t, sorted es -> find_tile es t = Ok (find_spec es t).
-Proof. exact find_tile_spec. Qed.
+  forall es t, sorted es -> find_tile pm_arith_variant es t = Ok (find_spec es t).
+Proof. exact (find_tile_spec pm_arith_variant). Qed.
 Print Assumptions C16_find_tile_is_spec.
 
 (* run lengths and leaf pointers: an id inside a run finds the run's entry; an id behind a leaf
@@ -27,8 +27,8 @@ Theorem C16_find_in_run :
     (e_id e <= t < e_id e + N.max (e_run e) 1)%N \/
       (e_run e = 0%N /\ (e_id e <= t)%N /\ forall e', In e' es -> (e_id e < e_id e')%N -> (t < e_id e')%N) ->
     ((0 < e_run e)%N -> (t < e_id e + e_run e)%N) ->
-    find_tile es t = Ok (Some e).
-Proof. exact find_in_run. Qed.
+    find_tile pm_arith_variant es t = Ok (Some e).
+Proof. exact (find_in_run pm_arith_variant). Qed.
 Print Assumptions C16_find_in_run.
 
 (* the coverage scan includes every id of every run *)
@@ -66,5 +66,5 @@ Print Assumptions C16_versatiles_unlisted.
 (* non-vacuity: a directory with a run, a leaf pointer and a gap *)
 Example C16_example :
   let es := [mkE 5 0 10 4; mkE 9 10 3 1; mkE 20 0 50 0; mkE 100 13 8 2]%N in
-  runs_ok es /\ find_tile es 7 = Ok (Some (mkE 5 0 10 4)) /\ find_tile es 50 = Ok (Some (mkE 20 0 50 0)) /\ find_tile es 10 = Ok None.
+  runs_ok es /\ find_tile 1 es 7 = Ok (Some (mkE 5 0 10 4)) /\ find_tile 1 es 50 = Ok (Some (mkE 20 0 50 0)) /\ find_tile 1 es 10 = Ok None.
 Proof. cbn. repeat split; try lia; vm_compute; reflexivity. Qed.
